@@ -181,17 +181,26 @@ def fit_cases(ctx, rs, nfits):
             if d > 2:
                 X = X[:, :2]; d = 2
         decorated = fam in ("LinearModel", "MLPModel", "CategoricalModel") and rs.rand() < 0.7
+        if it >= nfits - 9:
+            # dedicated block: each decorable family with each multi-pair shape, all samples in one batch
+            fam = ["LinearModel", "MLPModel", "CategoricalModel"][(it - (nfits - 9)) % 3]
+            cls = E[fam]
+            decorated = True
+            kw = dict(n_clusters=K, max_iter=2, solver=str(rs.choice(["adam", "sgd"])), random_state=int(rs.randint(100)),
+                      learning_rate=0.05, gemini=str(rs.choice(["kl_ova", "mmd_ova", "hellinger_ovo", "chi2_ova"])))
+            if fam == "MLPModel":
+                kw["n_hidden_dim"] = 3
         inp = {"estimator": fam, "params": {k: v for k, v in kw.items()}, "X": X.tolist(), "decorated": bool(decorated)}
         model = cls(**kw)
         ml, cl, factor = [], [], 1.0
         if decorated:
             perm = rs.permutation(n)
             factor = float(rs.choice([0.5, 2.0]))
-            shape = it % 4
+            shape = (1 + (it - (nfits - 9)) // 3) if it >= nfits - 9 else int(rs.randint(4))
             if shape == 0:      # disjoint pairs
                 ml, cl = [(int(perm[0]), int(perm[1]))], [(int(perm[2]), int(perm[3]))]
             elif shape == 1:    # a sample shared by several pairs of the same kind, in the same position (star)
-                ml, cl = [(int(perm[0]), int(perm[1])), (int(perm[0]), int(perm[2]))], [(int(perm[3]), int(perm[1])), (int(perm[2]), int(perm[1]))]
+                ml, cl = [(int(perm[0]), int(perm[1])), (int(perm[0]), int(perm[2]))], [(int(perm[3]), int(perm[1])), (int(perm[3]), int(perm[2]))]
             elif shape == 2:    # chains and a repeated pair
                 ml, cl = [(int(perm[0]), int(perm[1])), (int(perm[1]), int(perm[2]))], [(int(perm[0]), int(perm[3])), (int(perm[0]), int(perm[3]))]
             else:               # star of cannot-links only
